@@ -115,6 +115,7 @@ enum
     CL_CONFIG_WHILE_RUNNING,
     CL_NO_STOP,
     CL_FINE,
+    CL_MIXED_SIZES,
 };
 
 const VhSpec kSpec = {
@@ -128,7 +129,7 @@ const VhSpec kSpec = {
       "monitor_first_used_in_later_acquisition", "client_holds_region", "abort", "abort_while_worker_blocked", "abort_while_client_mapped",
       "abort_from_other_thread", "trigger_mode", "averaging", "averaging_2_windows", "fault_camera_frame", "fault_storage_append", "fault_start",
       "fault_fired", "fault_while_source_blocked", "shutdown_reinit", "start_while_running", "device_switch", "stream_toggled", "camera_no_frame_returns",
-      "hardware_id_gaps", "pct_schedule", "preemptions", "step_limit_inconclusive", "configure_while_running", "poll_then_continue_without_stop", "edge_preemptions", nullptr },
+      "hardware_id_gaps", "pct_schedule", "preemptions", "step_limit_inconclusive", "configure_while_running", "poll_then_continue_without_stop", "edge_preemptions", "frame_sizes_vary_within_acquisition", nullptr },
     { "C04 non-trivial: a finite acquisition completed with >=3 wraps of the sink ring AND (sink caught up at a wrap, or source blocked on a full ring, or a monitor lagging >= 1 frame, or write delay > 0)",
       "C05 non-trivial: image bytes % 8 != 0 AND a packet starting right after a wrap or after a partial client consume",
       "C06 non-trivial: >=2 acquisitions AND the monitor registered AND (partial consume, or hold while the ring filled, or first registration in a later acquisition)",
@@ -148,6 +149,7 @@ struct StreamCfg
     uint32_t period_us = 1000;
     bool trigger = false;
     int noframe_every = 0, gap_every = 0;
+    int vary = 0; // frame widths shrink by 0..vary pixels from frame to frame (only without averaging)
     int avg = 0;
     float write_delay_ms = 0, store_delay_ms = 0;
     int fault_site = 0; // 0 none, 1 camera frame, 2 storage append, 3 storage start, 4 camera start
@@ -560,6 +562,7 @@ apply_scripts(Ctx& x, const StreamCfg cfg[2])
         cs.period_us = c.period_us;
         cs.noframe_every = c.noframe_every;
         cs.gap_every = c.gap_every;
+        cs.vary = c.avg ? 0 : c.vary;
         cs.stop_yields = (c.period_us / 100) % 2 == 1 || c.period_us == 0; // a stop that takes a while (scheduling point inside)
         vmock::StoreScript& ss = vmock::hub.store_script[c.store];
         ss = vmock::StoreScript();
@@ -697,6 +700,8 @@ do_start(Ctx& x)
                 x.c.cls(CL_NOFRAME);
             if (a.cfg.gap_every)
                 x.c.cls(CL_HWGAP);
+            if (a.cfg.vary && !a.cfg.avg && a.cfg.w > 1)
+                x.c.cls(CL_MIXED_SIZES);
             if (a.cfg.fault_site) {
                 x.any_fault_in_case = true;
                 x.c.cls(a.cfg.fault_site == 1 ? CL_FAULT_CAMERA : a.cfg.fault_site == 2 ? CL_FAULT_STORAGE : CL_FAULT_START);
@@ -1560,6 +1565,7 @@ vh_run(const VhTok* tape, size_t n, VhReport* rep)
                 cur[s].trigger = ((t.a >> 1) & 3) == 3;
                 cur[s].noframe_every = (t.a >> 3) % 4 == 0 ? 2 + (t.c % 5) : 0;
                 cur[s].gap_every = (t.a >> 5) % 4 == 0 ? 2 + ((t.c >> 4) % 5) : 0;
+                cur[s].vary = (t.a >> 7) ? 1 + ((t.c >> 8) & 1) : 0;
                 break;
             }
             case K_AVG: cur[s].avg = (t.b % 4 == 0) ? 0 : 2 + (t.b >> 2) % 15; break;
@@ -1626,6 +1632,7 @@ vh_run(const VhTok* tape, size_t n, VhReport* rep)
                     c.avg = 0;
                     c.write_delay_ms = c.store_delay_ms = 0;
                     c.noframe_every = c.gap_every = 0;
+                    c.vary = (h >> 52) % 3 == 0 ? 1 + ((h >> 54) & 1) : 0;
                     static const uint32_t per[4] = { 0, 200, 1000, 4000 };
                     c.period_us = per[(h >> 22) % 4];
                     switch (scen) {
